@@ -107,9 +107,18 @@ def run(ctx):
                       found=found, expected='joints[J5] * sign_corrections[J5] - offsets[J5]', detail=found)
 
     # ---- R05.4 recovery structure
-    now_l = [l for l, nme in ic.names.items() if nme == 'now']
-    prev_l = [l for l, nme in ic.names.items() if nme == 'previous']
-    ctx.require(len(now_l) == 1 and len(prev_l) == 1, 'locals `now` / `previous` in inverse_continuing')
+    # the recovered candidate: a named [f64; 6] local with element writes at constant slots 3 and 5
+    now_l = []
+    for l in util.locals_of_type(ic, lambda t: t == '[f64; 6]'):
+        if l not in ic.names:
+            continue
+        idxs = set()
+        for d in ic.defs().get(l, []):
+            if d[0] == 'st' and not d[4] and len(d[3]['lhs']['proj']) == 1 and d[3]['lhs']['proj'][0]['k'] == 'index':
+                idxs.add(util.const_val(ic.term_local(d[3]['lhs']['proj'][0]['local'], (d[1], d[2]))))
+        if {3, 5} <= idxs:
+            now_l.append(l)
+    ctx.require(len(now_l) == 1, 'the recovered candidate of the singular branch (a [f64;6] local whose slots J4 and J6 are rewritten)')
     from .C16 import partial_writes
     ws = partial_writes(ic, lambda lhs, i, j: lhs['local'] == now_l[0] and len(lhs['proj']) == 1)
     by_idx = {}
@@ -162,5 +171,7 @@ def run(ctx):
 
 def _prev_idx(b, v, idx):
     """the previous[idx] atom inside value term v"""
-    c = mir.subterms(v, lambda x: x[0] == 'idx' and util.const_val(x[2]) == idx and 'previous' in show(x, maxdepth=4))
+    c = mir.subterms(v, lambda x: x[0] == 'idx' and util.const_val(x[2]) == idx and isinstance(strip(x[1]), tuple) and strip(x[1])[0] == 'var' and '&' in str(x))
+    if not c:
+        c = mir.subterms(v, lambda x: x[0] == 'idx' and util.const_val(x[2]) == idx and 'previous' in show(x, maxdepth=4))
     return c[0] if c else None
